@@ -74,8 +74,25 @@ namespace vf
                 s[i] = splitmix64(x);
         }
 
+        // decision stream taken from a byte buffer first (coverage-guided fuzzing: the fuzzer mutates the decisions of the
+        // generators, every byte string is a valid case); the generator continues with the PRNG when the buffer is used up
+        void set_source(const unsigned char* p, std::size_t n)
+        {
+            fz = p;
+            fz_n = n;
+            fz_pos = 0;
+        }
+
         std::uint64_t next()
         {
+            if (fz_pos < fz_n)
+            {
+                std::uint64_t r = 0;
+                std::size_t k = fz_n - fz_pos < 8 ? fz_n - fz_pos : 8;
+                std::memcpy(&r, fz + fz_pos, k);
+                fz_pos += k;
+                return r;
+            }
             const std::uint64_t result = rotl(s[1] * 5, 7) * 9;
             const std::uint64_t t = s[1] << 17;
             s[2] ^= s[0];
@@ -147,6 +164,8 @@ namespace vf
 
     private:
         std::uint64_t s[4];
+        const unsigned char* fz = nullptr;
+        std::size_t fz_n = 0, fz_pos = 0;
         static std::uint64_t rotl(std::uint64_t x, int k)
         {
             return (x << k) | (x >> (64 - k));
